@@ -138,6 +138,20 @@ def step (cfg : Cfg) (fuel : Nat) (st : List Expr) (ins : Array Json) : R (List 
   | "reg" => return .reg (← strArg 1) (← natArg 2) false :: st
   | "ext" => return .ext (← strArg 1) (← natArg 2) false :: st
   | "top" => return mkTop (← natArg 1) :: st
+  -- ["mem", name, size, disp, endian, basesize]: mem(reg(name, basesize), size, disp=disp, endian=±1)
+  | "mem" =>
+      let bs ← natArg 5
+      let en ← intArg 4
+      return Expr.mem (.ptr (.reg (← strArg 1) bs false) none (← intArg 3) bs false) (← natArg 2) false (en == -1) [] :: st
+  -- ["setpart", lo, hi]: pops v then c; `c[lo:hi] = v` through comp.__setitem__ (a non-comp `c` is first
+  -- wrapped: `cc = comp(c.size); cc[0:c.size] = c`)
+  | "setpart" =>
+      let (v, tl) ← pop1 st
+      let (c, tl) ← pop1 tl
+      let c ← (match c with
+        | .comp .. => pure c
+        | _ => setitem cfg fuel (Expr.comp c.size false []) 0 (c.size : Int) c)
+      return (← setitem cfg fuel c (← intArg 1) (← intArg 2) v) :: tl
   | "signed" => let (x, tl) ← pop1 st; return x.setSf true :: tl
   | "unsigned" => let (x, tl) ← pop1 st; return x.setSf false :: tl
   | "neg" => let (x, tl) ← pop1 st; return (← apiNeg cfg fuel x) :: tl
